@@ -841,7 +841,19 @@ def reindex_(
         # all groups were NaN
         shape = array.shape[:-1] + (len(to),)
         if array_type in (ReindexArrayType.AUTO, ReindexArrayType.NUMPY):
-            reindexed = np.full(shape, fill_value, dtype=array.dtype)
+            if is_duck_dask_array(array):
+                # stay lazy: np.full would hand back an in-memory array
+                import dask.array
+
+                chunks = array.chunks[:-1] + ((len(to),),)
+                if len(to) == 0:
+                    reindexed = dask.array.empty(shape, dtype=array.dtype, chunks=chunks)
+                else:
+                    # same coercion (and the same errors) as np.full below
+                    fill = np.full((), fill_value, dtype=array.dtype)[()]
+                    reindexed = dask.array.full(shape, fill, dtype=array.dtype, chunks=chunks)
+            else:
+                reindexed = np.full(shape, fill_value, dtype=array.dtype)
         else:
             raise NotImplementedError
         return reindexed
